@@ -736,11 +736,9 @@ func (bg *behGen) object(id string, depth int, ids []string, minProps int) *hx.T
 			if r.Intn(3) == 0 {
 				p.Required = true
 			}
-			if pt.T == "int" && pt.Units == nil && r.Intn(4) == 0 {
-				p.Default = hx.MkDefault("7")
-			}
-			if pt.T == "str" && pt.Pat == nil && r.Intn(4) == 0 {
-				p.Default = hx.MkDefault("\"abc\"")
+			if !p.Required && r.Intn(3) == 0 {
+				// objects that merely share an ID (across nested scopes) declare DIFFERENT defaults
+				p.Default = randomDefault(r, pt)
 			}
 		} else if pt.T == "scope" && r.Intn(3) == 0 {
 			p.Required = true
@@ -1159,8 +1157,18 @@ func groupBehave(s *sink, g *hx.Gen) {
 				s    schema.Type
 			}{"plain nested scopes", plain})
 		}
+		// objects written as literals arrive without the defaults the constructor extracts
+		var lit schema.Type
+		if res := hx.Guard(func() hx.Result { lit = (&nsBuilder{literalObjects: true}).build(t); return hx.Result{R: "ok"} }); res.R != "ok" {
+			s.finding(Finding{Prop: "C14", What: "building the tree from object literals panicked: " + res.Msg, Schema: t})
+		} else {
+			variants = append(variants, struct {
+				what string
+				s    schema.Type
+			}{"objects written as literals", lit})
+		}
 		res := hx.Guard(func() hx.Result {
-			d, err := t.Build().(*schema.ScopeSchema).SelfSerialize()
+			d, err := (&nsBuilder{describable: true}).build(t).(*schema.ScopeSchema).SelfSerialize()
 			if err != nil {
 				// not a linking matter (e.g. enum values without display values cannot be described)
 				return hx.Result{R: "fuel"}
@@ -1365,6 +1373,13 @@ func refsCmd(a Args) {
 			}
 			for i := 0; i < a.N*mult; i++ {
 				groupSched(s, g)
+			}
+			for i := 0; i < a.N*mult/2; i++ {
+				groupSharedSlice(s, g)
+			}
+		case "slices":
+			for i := 0; i < a.N*mult/2; i++ {
+				groupSharedSlice(s, g)
 			}
 		case "structs":
 			groupStructMapped(s)
